@@ -4,7 +4,10 @@ package main
 import (
 	"context"
 	"fmt"
+	"os"
+	"runtime/pprof"
 	"strings"
+	"time"
 
 	"github.com/NethermindEth/juno/core"
 	"github.com/NethermindEth/juno/core/felt"
@@ -99,12 +102,12 @@ func (sc *Scenario) l1For(i uint64) (uint64, bool) {
 }
 
 func (r *run) firstYoung() uint64 {
-	for i, a := range r.sc.Ages {
+	for i, a := range r.ages {
 		if a <= youngAge+60 {
 			return uint64(i)
 		}
 	}
-	return uint64(len(r.sc.Ages))
+	return uint64(len(r.ages))
 }
 
 type event struct {
@@ -217,36 +220,44 @@ func (r *run) storeBoth(i int) {
 
 func runScenario(c *hx.Ctx, or *hx.Oracle, sc *Scenario, tag string) {
 	r := &run{c: c, or: or, sc: sc, now: nowUnix(), tag: tag}
-	n := len(sc.Specs)
+	r.expand()
+	n := len(r.specs)
 	// the unpruned twin builds the chain
 	r.A = openNode(memory.New(), sc.NewState, false)
-	for i := range sc.Specs {
-		sp := sc.Specs[i]
-		sp.Timestamp = r.now - sc.Ages[i]
+	var syncImage *memory.Database
+	for i := range r.specs {
+		if sc.Kind == "long" && i == sc.Sync {
+			syncImage = r.A.DB.(*memory.Database).Copy()
+		}
+		sp := r.specs[i]
+		sp.Timestamp = r.now - r.ages[i]
 		b, err := r.A.finalise(&sp)
 		hx.Must(err)
 		r.bl = append(r.bl, b)
 	}
 	// A is rewound virtually: comparisons only look at blocks <= B's head while B syncs, so B is compared
 	// once it has caught up; during sync only the model is compared.
-	r.px = &proxy{Database: memory.New()}
-	r.B = openNode(r.px, sc.NewState, true)
-	r.p = newPruner(r.px, r.B.Floor, sc.Cfg, &r.obs)
-	for i := 0; i < sc.Sync && i < n; i++ {
-		hx.Must(r.B.store(r.bl[i]))
+	trace("chain built")
+	if syncImage != nil { // long history: the pruned node starts from a copy of the twin's database
+		r.px = &proxy{Database: syncImage}
+		r.B = openNode(r.px, sc.NewState, true)
+	} else {
+		r.px = &proxy{Database: memory.New()}
+		r.B = openNode(r.px, sc.NewState, true)
+		for i := 0; i < sc.Sync && i < n; i++ {
+			hx.Must(r.B.store(r.bl[i]))
+		}
 	}
+	r.p = newPruner(r.px, r.B.Floor, sc.Cfg, &r.obs)
 	start := sc.Sync
 	if start > n {
 		start = n
 	}
 	or.Ask("idx all", 1)
-	if n > 2000 { // long chain: compare around the ends, the window boundary and the floor region only
+	if r.idx != nil {
 		var l []string
-		for i := 0; i < n; i++ {
-			if i < 12 || (i > 8170 && i < 8215) || i > n-45 {
-				r.idx = append(r.idx, uint64(i))
-				l = append(l, fmt.Sprint(i))
-			}
+		for _, i := range r.idx {
+			l = append(l, fmt.Sprint(i))
 		}
 		or.Ask("idx "+strings.Join(l, ","), 1)
 	}
@@ -289,8 +300,10 @@ func runScenario(c *hx.Ctx, or *hx.Oracle, sc *Scenario, tag string) {
 			}
 			oldBefore, _ := pruner.OldestRetainedBlock(r.px)
 			k, pruned := r.fire(r.p, r.B, ev, ctx, true)
+			trace("fired " + ev.kind)
 			if pruned {
 				r.compareModelStore(r.px, uint64(i), "after "+ev.kind)
+				trace("model store compared")
 				if k > oldBefore && k-oldBefore >= biggestN {
 					pc.k, biggest, biggestN = k, pc, k-oldBefore
 				}
@@ -298,7 +311,9 @@ func runScenario(c *hx.Ctx, or *hx.Oracle, sc *Scenario, tag string) {
 		}
 	}
 	// B has caught up with A: the property predicate against the twin, and the model's accessor table
+	trace("events done")
 	r.compareTwin(r.B, r.e, "complete", true)
+	trace("compared complete")
 	c.Hist[fmt.Sprintf("final-floor>0:%v", r.e > 0)]++
 	if sc.Interrupt && biggest != nil {
 		or.Ask("save final", 1)
@@ -306,48 +321,100 @@ func runScenario(c *hx.Ctx, or *hx.Oracle, sc *Scenario, tag string) {
 		or.Ask("load final", 1)
 	}
 	r.revertAndExtend()
+	trace("reverted and extended")
 }
 
 var _ = strings.Fields
 
 func l1HeadOf(n uint64) *core.L1Head { return &core.L1Head{BlockNumber: n, BlockHash: F(n), StateRoot: F(1)} }
 
+const rule = "twin(pruned,unpruned) + extracted pruner model; predicate: floor bound, retained unchanged (accessors, state, filtered event queries), state from floor-1, below floor pruned-or-exact, resume, revert/extend; pruner service, Run loop, historyprunner migration"
+
+func dispatch(c *hx.Ctx, or *hx.Oracle, sc *Scenario, tag string) {
+	c.Hist["kind:"+sc.Kind]++
+	switch sc.Kind {
+	case "migrate":
+		runMigrate(c, or, sc, tag)
+	case "runloop":
+		runLoop(c, or, sc, tag)
+	default:
+		runScenario(c, or, sc, tag)
+	}
+}
+
+// the migration when the computed floor is block 0 (pivot == retained)
+func floorZeroMigration(g *hx.RNG, newState bool) *Scenario {
+	sc := genScenario(g, newState, 12, false)
+	sc.Kind, sc.Interrupt = "migrate", false
+	sc.Cfg.Retained, sc.Cfg.MinAgeSec = 8, 0
+	sc.Mig = &MigCfg{L1: "below", L1Off: 3, Mode: "none"}
+	changingWrites(sc)
+	return sc
+}
+
 func main() {
 	c := hx.NewCtx("C16")
+	if pf := os.Getenv("C16_PROF"); pf != "" {
+		f, _ := os.Create(pf)
+		pprof.StartCPUProfile(f)
+		go func() { time.Sleep(100 * time.Second); pprof.StopCPUProfile(); f.Close() }()
+	}
 	or := hx.StartOracle(c.OraclePath)
 	defer or.Close()
 	if c.ReplayIn != "" {
 		var sc Scenario
 		c.LoadReplay(&sc)
-		runScenario(c, or, &sc, "replay")
-		c.Finish("twin(pruned,unpruned) + extracted pruner model; predicate: floor bound, retained unchanged, state from floor-1, below floor pruned-or-exact, resume, revert/extend")
+		dispatch(c, or, &sc, "replay")
+		c.Finish(rule)
 	}
 	g := hx.NewRNG(c.Seed)
-	short := 16
+	short, migs, loops := 12, 14, 2
 	if c.Thorough() {
-		short = 120
+		short, migs, loops = 120, 150, 12
 	}
+	t0 := time.Now()
 	for i := 0; i < short; i++ {
 		for _, ns := range []bool{false, true} {
 			sc := genScenario(g.Fork(uint64(i)), ns, 16+g.Intn(14), false)
 			c.Hist["retained:"+fmt.Sprint(sc.Cfg.Retained)]++
 			c.Hist["l1:"+sc.L1Mode]++
 			c.Hist[fmt.Sprintf("min-age:%v batch:%d", sc.Cfg.MinAgeSec > 0, sc.Cfg.Batch)]++
-			runScenario(c, or, sc, fmt.Sprintf("short %d", i))
+			dispatch(c, or, sc, fmt.Sprintf("short %d", i))
 		}
 	}
-	// one chain across a bloom-window boundary (8192): window deletes, running filter, carve-outs
-	// (about 6 minutes per backend: thorough tier only)
-	longs := []bool{}
+	c.Extra["wall_short_s"] = time.Since(t0).Seconds()
+	t0 = time.Now()
+	for i := 0; i < migs; i++ {
+		for _, ns := range []bool{false, true} {
+			if ns && i%8 != 0 { // the migration copies legacy history logs only: few new-state runs
+				continue
+			}
+			dispatch(c, or, genMigrate(g.Fork(5000+uint64(i)), ns), fmt.Sprintf("migrate %d", i))
+		}
+	}
+	for _, ns := range []bool{false, true} {
+		dispatch(c, or, floorZeroMigration(g.Fork(6000), ns), "migrate floor 0")
+	}
+	for i := 0; i < loops; i++ {
+		for _, ns := range []bool{false, true} {
+			sc := genScenario(g.Fork(7000+uint64(i)), ns, 18+g.Intn(8), false)
+			sc.Kind, sc.Interrupt, sc.L1Mode, sc.Cfg.Every = "runloop", false, "lag", 1
+			if sc.Cfg.Retained > 6 {
+				sc.Cfg.Retained = 2
+			}
+			dispatch(c, or, sc, fmt.Sprintf("runloop %d", i))
+		}
+	}
+	c.Extra["wall_migrate_runloop_s"] = time.Since(t0).Seconds()
+	t0 = time.Now()
+	// long histories: floor inside the persisted window [8192,16383], head in the next (running) window
+	longs := []bool{c.Seed%2 == 0}
 	if c.Thorough() {
-		longs = []bool{false, true}
+		longs = []bool{false, true, false, true}
 	}
-	for _, ns := range longs {
-		sc := genScenario(g.Fork(777), ns, 8192+30, true)
-		sc.Cfg.Retained, sc.Cfg.Every, sc.L1Mode, sc.L1Lag, sc.Sync = 3, 1, "lag", 2, 8192+26
-		sc.Cfg.Batch = 0
-		c.Hist["long"]++
-		runScenario(c, or, sc, "long")
+	for i, ns := range longs {
+		dispatch(c, or, longScenario(g.Fork(777+uint64(i)), ns), "long")
 	}
-	c.Finish("twin(pruned,unpruned) + extracted pruner model; predicate: floor bound, retained unchanged, state from floor-1, below floor pruned-or-exact, resume, revert/extend")
+	c.Extra["wall_long_s"] = time.Since(t0).Seconds()
+	c.Finish(rule)
 }
